@@ -60,6 +60,21 @@ Ev == Rec[l]
 T(prop, what) == {<<l, prop, what>>}
 Lift(S) == {<<l, s[1], s[2]>> : s \in S}
 
+\* an add_appointment answered with another code than the specification allows: owned by the properties the two codes belong to
+ReplyCodeTags(expCode, logCode) ==
+    IF expCode = logCode THEN {}
+    ELSE (IF "triggered" \in {expCode, logCode} THEN T("C06", "conf.reply") \cup T("C01", "conf.reply") ELSE {})
+         \cup (IF "expired" \in {expCode, logCode} THEN T("C09", "conf.reply") \cup T("C06", "conf.reply") ELSE {})
+         \cup (IF "unavailable" \in {expCode, logCode} THEN T("C12", "conf.reply") ELSE {})
+         \cup (IF {expCode, logCode} = {"ok", "auth"} THEN T("C06", "conf.reply") \cup T("C07", "conf.reply") ELSE {})
+         \cup (IF {expCode, logCode} \cap {"triggered", "expired", "unavailable"} = {} /\ {expCode, logCode} # {"ok", "auth"} THEN T("C07", "conf.reply") ELSE {})
+
+\* C07 (state form): nobody holds more than was granted.  gr = set of <<user, slots granted by registrations>>.
+GrantedOf(gr, u) == IF \E x \in gr : x[1] = u THEN (CHOOSE x \in gr : x[1] = u)[2] ELSE 0
+ConservationTags(gr, log) ==
+    IF \E r \in log.users : r.slots + SumCost({a \in log.appts : a.u = r.u}) > GrantedOf(gr, r.u)
+    THEN T("C07", "conservation") ELSE {}
+
 -----------------------------------------------------------------------------
 (* Conformance: expected (specification) vs logged, per component.         *)
 
@@ -100,7 +115,7 @@ AbortTags(expAbort, logAbort, prop) ==
 Comparable(expAbort, logAbort) == logAbort = "" /\ expAbort \in {"", "norpc"}
 
 -----------------------------------------------------------------------------
-Init == st = [dead |-> TRUE] /\ g = [seen |-> {}, nodeHas |-> {}, chain |-> {}, lastAcc |-> {}, tower_id |-> ""] /\ l = 1 /\ tags = {} /\ alive = FALSE
+Init == st = [dead |-> TRUE] /\ g = [seen |-> {}, nodeHas |-> {}, chain |-> {}, lastAcc |-> {}, tower_id |-> "", granted |-> {}] /\ l = 1 /\ tags = {} /\ alive = FALSE
 
 \* Boot: volatile state rebuilt from the database rows and the node's last blocks (inputs).
 StepBoot ==
@@ -131,9 +146,13 @@ StepRegister ==
     /\ LET exp == RegisterF(st, Ev.u)
            log == Logged(Ev.post, st.wCache, st.rIndex)
            E == [act |-> "Register", who |-> Ev.u, reply |-> Ev.reply, sends |-> {}, orc |-> OrcOf(<<>>)]
+           gr2 == IF Ev.abort = "" /\ Ev.reply.code = "ok"
+                  THEN {x \in g.granted : x[1] # Ev.u} \cup {<<Ev.u, (IF HasUser(st.users, Ev.u) THEN GrantedOf(g.granted, Ev.u) ELSE 0) + SUB_S>>}
+                  ELSE g.granted
        IN /\ st' = log
-          /\ g' = g
+          /\ g' = [g EXCEPT !.granted = gr2]
           /\ tags' = tags
+                \cup ConservationTags(gr2, log)
                 \cup AbortTags(exp.abort, Ev.abort, "C07")
                 \cup (IF Comparable(exp.abort, Ev.abort)
                       THEN Conf([exp EXCEPT !.st.users = log.users, !.st.gk = log.gk], log, {}, "C07", "C06", "C06", "C02", "C02")
@@ -166,10 +185,11 @@ StepAdd ==
        IN /\ st' = log
           /\ g' = g2
           /\ tags' = tags
+                \cup ConservationTags(g.granted, log)
                 \cup AbortTags(exp.abort, Ev.abort, "C01")
                 \cup (IF Comparable(exp.abort, Ev.abort)
                       THEN Conf(exp, log, sends, "C07", "C01", "C01", "C01", "C02")
-                           \cup (IF exp.reply.code # Ev.reply.code THEN T(IF Ev.reply.code = "ok" \/ exp.reply.code \in {"auth", "expired"} THEN "C06" ELSE "C07", "conf.reply") ELSE {})
+                           \cup ReplyCodeTags(exp.reply.code, Ev.reply.code)
                            \cup Lift(C06_Request(st, E, log) \cup C07_Add(st, E, log) \cup C07_Copies(log))
                            \cup (IF st.reachable THEN Lift(C01_Add(st, E, log) \cup C08_Add(st, E, log)) ELSE {})
                            \cup Lift(C02_Sends(st, E, log, g) \cup C02_Status(st, E, log, g2))
@@ -223,7 +243,7 @@ StepGkConnect ==
            log == Logged(Ev.post, st.wCache, st.rIndex)
            E == [act |-> "GkConnect", blk |-> blk]
        IN /\ st' = log
-          /\ g' = g
+          /\ g' = [g EXCEPT !.granted = {x \in @ : HasUser(log.users, x[1])}]
           /\ tags' = tags
                 \cup AbortTags("", Ev.abort, "C09")
                 \cup (IF Ev.abort = "" THEN Conf(exp, log, SendsOf(Ev.rpc), "C09", "C09", "C09", "C02", "C02")
@@ -267,6 +287,7 @@ StepRConnect ==
        IN /\ st' = log
           /\ g' = g2
           /\ tags' = tags
+                \cup ConservationTags(g.granted, log)
                 \cup AbortTags(exp.abort, Ev.abort, "C04")
                 \cup (IF Comparable(exp.abort, Ev.abort)
                       THEN Conf(exp, log, sends, "C07", "C04", "C04", "C04", "C02")
@@ -322,7 +343,7 @@ StepNote ==
 StepInit ==
     /\ Ev.act = "Init"
     /\ st' = [dead |-> TRUE]
-    /\ g' = [seen |-> {}, nodeHas |-> {}, chain |-> {}, lastAcc |-> {}, tower_id |-> ""]
+    /\ g' = [seen |-> {}, nodeHas |-> {}, chain |-> {}, lastAcc |-> {}, tower_id |-> "", granted |-> {}]
     /\ alive' = FALSE
     /\ UNCHANGED tags
 
